@@ -129,7 +129,7 @@ def check(ctx):
     errors.r14_stopiteration_drivers(ctx)
     # the commit point is reached only when every stream was read to its end: the driver must stop pulling at the first failure
     # (a handler inside the driver that goes on to the next resource lets the writer upstream run to its rename / copy)
-    errors.r14_err_discipline(ctx, rule='R14', include=lambda m: m.name == 'dataflows.base.datastream_processor', floor=3)
+    errors.r14_err_discipline(ctx, rule='R14', include=lambda m: m.name == 'dataflows.base.datastream_processor', floor=1)
     # no try statement at all encloses the resource loop with a handler that continues to the rename
     sf = commits.stream_func(ctx)
     trys = [n for n in own_nodes(sf.node) if isinstance(n, ast.Try)]
